@@ -201,7 +201,7 @@ add_dead = Contract('IndexedSet._add_dead', setup=ad_setup, requires=ad_requires
                     modifies=lambda c: [('DeadList', 'elems'), ('DeadList', 'len'), ('DeadInterval', '0'), ('DeadInterval', '1')],
                     local_types=dict(cand_int=REF(Iv), dint=REF(Iv)))
 add_dead.chain = True                         # the dead-set equality is proved from the representation lemma stated before it
-add_dead.aux = ('representation lemma', 'wf.')     # ... which is tied to the current representation: refuted => proof lost, not a violation
+add_dead.aux = ('representation lemma', 'wf.', 'the list object is kept')     # ... which is tied to the current representation: refuted => proof lost, not a violation
 CONTRACTS['IndexedSet._add_dead'] = add_dead
 FUNCS.append('IndexedSet._add_dead')
 EXTERNALS = {'bisect_left': ext_bisect_left}
